@@ -29,12 +29,13 @@ RULE = ("adversarial (schema, query) texts, one isolated worker process each: fr
         "proc macros), by itself again and by valid inputs over the same and other paths; the CLI delivery of the generator "
         "(output piped through rustfmt) on operations of 200 - 4,000 fields, command and formatter watched as one process tree; long acyclic chains "
         "(input types I0 -> I1 -> ... up to 3,000 / 6,000, fragment spread chains up to 1,000 / 2,500 with fields, as pure aliases, and carrying __typename for an interface) - flat "
-        "texts that become deep walks inside the generator; exit judged, CPU time not (hazard corpus: the 60,000-type chain of K10). Non-trivial = every input except the "
+        "texts that become deep walks inside the generator; exit judged, CPU time not (hazard corpus: the 60,000-type chain of K10); syntax errors that have to quote 200-900 bytes of non-ASCII text (2-, 3-, 4-byte scripts, "
+        "every alignment) in query files, SDL and JSON schema files and query strings. Non-trivial = every input except the "
         "unmodified controls; distinct by (schema text, query text)")
 
 CPU_LIMIT_S = 20.0
 FLOOR = {"class:spread-cycle": 60, "class:nesting": 20, "class:input-cycle": 15, "class:degenerate": 15, "class:schema-variant": 25,
-         "class:mutated-query": 300, "class:mutated-schema": 300, "exit:ok": 5, "exit:err": 100, "class:after-failure": 25, "after-failure-calls": 100, "class:abstract-cycle": 90, "class:cli-large-module": 6, "class:long-chain": 9}
+         "class:mutated-query": 300, "class:mutated-schema": 300, "exit:ok": 5, "exit:err": 100, "class:after-failure": 25, "after-failure-calls": 100, "class:abstract-cycle": 90, "class:cli-large-module": 6, "class:long-chain": 9, "class:nonascii-error": 64}
 
 
 def main(run):
@@ -140,8 +141,31 @@ def main(run):
     open(p, "w").write(input_chain(60000)[0])
     inputs.append(("long-chain-hazard", "input-chain-60000", p, input_chain(60000)[1]))
 
+    # syntax errors whose message has to quote long non-ASCII text (a misplaced string / description), loaded through the FILE
+    # entry point (the one the derive and the CLI use): whatever renders, truncates or wraps such a message must do it on
+    # character boundaries. 2-, 3- and 4-byte scripts, 0-3 ASCII characters in front to shift every alignment.
+    scripts = [("cyrillic", "\u0436\u0443\u0440\u043d\u0430\u043b "), ("cjk", "\u65e5\u672c\u8a9e\u306e\u8aac\u660e"), ("emoji", "\U0001F980\U0001F40D"), ("mixed", "a\u00e9\u4e2d\U0001F600")]
+    ni = 0
+    for sname, unit in scripts:
+        for pad in range(4):
+            text = "x" * pad + unit * 60
+            bq = os.path.join(work, "na_q%d.graphql" % ni)
+            open(bq, "w", encoding="utf-8").write('query Q { "%s" }\n' % text)
+            inputs.append(("nonascii-error", "query file: string where a field is expected, %s, pad %d" % (sname, pad), cyc, {"query_path": bq}))
+            bs = os.path.join(work, "na_s%d.graphql" % ni)
+            open(bs, "w", encoding="utf-8").write('type Query { a: """%s""" Int }\n' % text)
+            inputs.append(("nonascii-error", "schema file: description where a type is expected, %s, pad %d" % (sname, pad), bs, "query Q { a }\n"))
+            bj = os.path.join(work, "na_j%d.json" % ni)
+            open(bj, "w", encoding="utf-8").write('{"data": {"__schema": {"%s": }}}' % text)
+            inputs.append(("nonascii-error", "json schema: broken after a long key, %s, pad %d" % (sname, pad), bj, "query Q { a }\n"))
+            inputs.append(("nonascii-error", "query text: string where a field is expected, %s, pad %d" % (sname, pad), cyc, 'query Q { "%s" }\n' % text))
+            ni += 1
+
     def one(args):
         cls, label, sp, q = args
+        if isinstance(q, dict):
+            req = dict({"id": "x", "schema_path": sp, "options": {"mode": "cli"}, "want": []}, **q)
+            return run_gendrv_one(req, cpu_s=60, as_bytes=8 << 30, wall_s=120)
         if cls.startswith("long-chain"):
             return run_gendrv_one({"id": "x", "schema_path": sp, "query_text": q, "options": {"mode": "cli"}, "want": []}, cpu_s=600, as_bytes=8 << 30, wall_s=900)
         if cls == "after-failure":
@@ -165,6 +189,8 @@ def main(run):
             stext = open(sp, encoding="utf-8", errors="replace").read() if os.path.exists(sp) else None
         except OSError:
             stext = None
+        if isinstance(q, dict):
+            q = "<file %s>: %s" % (os.path.basename(q["query_path"]), open(q["query_path"], encoding="utf-8").read())
         case = {"id": "%s:%s" % (cls, label), "corpus": "hazard:K10" if cls == "long-chain-hazard" else "clean", "class": cls, "label": label, "doc_text": q if len(q) < 20000 else q[:2000] + "...(%d bytes)" % len(q),
                 "schema_text": stext if stext is None or len(stext) < 60000 else stext[:2000] + "...", "schema_ext": os.path.splitext(sp)[1][1:], "schema_missing": stext is None,
                 "full_doc_len": len(q)}
